@@ -15,6 +15,7 @@ import (
 
 	"gitlab.com/gomidi/midi/v2/drivers"
 	"gitlab.com/gomidi/midi/v2/smf"
+	"gitlab.com/gomidi/midi/v2/zverif/adapt"
 	"gitlab.com/gomidi/midi/v2/zverif/ev"
 	"gitlab.com/gomidi/midi/v2/zverif/ref/tempo"
 	"pgregory.net/rapid"
@@ -260,6 +261,12 @@ func playOnce(c Case, run int, trd **smf.TracksReader, rec *recorder, outs []*fa
 				}
 				defer os.RemoveAll(dir)
 				path := filepath.Join(dir, "play.mid")
+				// the path held a file of the same size with other tempi a moment ago, which was
+				// read from there as well
+				if err := os.WriteFile(path, adapt.TempoDecoy(file), 0o644); err != nil {
+					panic(err)
+				}
+				smf.ReadTracks(path, c.Select...).Do(func(smf.TrackEvent) {})
 				if err := os.WriteFile(path, file, 0o644); err != nil {
 					panic(err)
 				}
@@ -481,7 +488,7 @@ func genCase(t *rapid.T) Case {
 }
 
 var play = ev.NewCheck("C12", "playback",
-	"rapid: format-1 files with 1..5 tracks; 1..6 grid ticks recur in every track with 0..14 events each (one file in fifteen has a crowded tick with 100..300 events of every track) (so ticks are shared within and across tracks and the concatenation of the tracks is not ordered by time), off-grid notes, metas, sysex and tempo changes sprinkled in; resolution 960 with tempi making one tick 1..50 us, now and then far below one microsecond (in one case of five no tempo event at tick 0, i.e. 120 BPM until the first later tempo event), whole file <= ~25 ms; one file in 25 is a ritardando of 150..400 tempo steps of 300..600 us per quarter from 30 BPM at resolution 15360 (each step within 0.01 BPM of its predecessor, 5..12 % in total) with a few notes at long distances after it (about 0.3 s); channel messages of all seven kinds (note-on also with velocity 0), each unique by its bytes; Play(out) or MultiPlay with explicit, default (-1) and missing port mappings; optional track selection; read with ReadTracksFrom or (one case of four) from a temporary file with ReadTracks; in one case of five the same TracksReader is played a second time and both runs are checked; in one case of five the value behind the reader is exported once (SMF().WriteTo) before it is played; oracle on recording fake out ports (instant = time.Since(start) inside Send): every channel message of a selected, mapped track exactly once on its port, no meta event ever, per-track send order == file order, global order non-decreasing in scheduled time (exact tempo-map integral), no send before its scheduled time; sysex filtered from the comparison; non-trivial = >= 2 selected tracks, > 12 messages and a tick shared by >= 2 events of one track and by another track; distinct by case hash",
+	"rapid: format-1 files with 1..5 tracks; 1..6 grid ticks recur in every track with 0..14 events each (one file in fifteen has a crowded tick with 100..300 events of every track) (so ticks are shared within and across tracks and the concatenation of the tracks is not ordered by time), off-grid notes, metas, sysex and tempo changes sprinkled in; resolution 960 with tempi making one tick 1..50 us, now and then far below one microsecond (in one case of five no tempo event at tick 0, i.e. 120 BPM until the first later tempo event), whole file <= ~25 ms; one file in 25 is a ritardando of 150..400 tempo steps of 300..600 us per quarter from 30 BPM at resolution 15360 (each step within 0.01 BPM of its predecessor, 5..12 % in total) with a few notes at long distances after it (about 0.3 s); channel messages of all seven kinds (note-on also with velocity 0), each unique by its bytes; Play(out) or MultiPlay with explicit, default (-1) and missing port mappings; optional track selection; read with ReadTracksFrom or (one case of four) from a temporary file with ReadTracks (the path held the same tracks with much faster tempi a moment ago and was read then as well); in one case of five the same TracksReader is played a second time and both runs are checked; in one case of five the value behind the reader is exported once (SMF().WriteTo) before it is played; oracle on recording fake out ports (instant = time.Since(start) inside Send): every channel message of a selected, mapped track exactly once on its port, no meta event ever, per-track send order == file order, global order non-decreasing in scheduled time (exact tempo-map integral), no send before its scheduled time; sysex filtered from the comparison; non-trivial = >= 2 selected tracks, > 12 messages and a tick shared by >= 2 events of one track and by another track; distinct by case hash",
 	genCase, run)
 
 func TestPropPlayback(t *testing.T) { play.Rapid(t, 150, 2000) }
